@@ -174,7 +174,7 @@ class Compiler:
             src = f"def {fname}({_sig(params)}):\n    _uid = 'uid:{bkey}'\n    return rt.int_body('{bkey}', {_argdict(params)})\n"
         func = self._func(("int", bkey, is_async, fname), src, fname)
         if self.decorators:
-            return hg.interrupt(output_name=_tup(node["outs"]), emit=_tup(node.get("emit", [])), wait_for=_tup(node.get("wait_for", [])), rename_inputs=node.get("rename_inputs") or None)(func)
+            return hg.interrupt(output_name=_tup(node["outs"]), emit=_tup(node.get("emit", [])), wait_for=_tup(node.get("wait_for", [])), rename_inputs=node.get("rename_inputs") or None, cache=bool(node.get("cache", False)))(func)
         return InterruptNode(
             func,
             name=node["name"],
@@ -182,6 +182,7 @@ class Compiler:
             emit=_tup(node.get("emit", [])),
             wait_for=_tup(node.get("wait_for", [])),
             rename_inputs=node.get("rename_inputs") or None,
+            cache=bool(node.get("cache", False)),
         )
 
     def graph_node(self, node: dict) -> Any:
